@@ -151,7 +151,7 @@ def replay_path(kind, params, init_state, path):
             except G.HarnessDrift as e:
                 return ("MACHINERY", "harness drift at %s after %s: %s" % (lab, done, e))
             done.append(lab[:2])
-            if len(lab) > 2 and lab[0] == "Call" and got != lab[2]:
+            if len(lab) > 2 and lab[0] in ("Call", "View") and got != lab[2]:
                 return ("replay:%s:Call-%s:result" % (kind, lab[1]), "after %s (step %d): %s returned [isAlive, returncode, exitReason, status] = %s, specification %s"
                         % (done, len(done), lab[1], json.dumps(got), json.dumps(lab[2])))
             fields, det = diff(d.project(), cls.spec_state(want))
@@ -216,13 +216,169 @@ def transition_cover(chk, name, spec, consts, kind, params, min_edges):
     return edges
 
 
+# --------------------------------------------------------------------------------------------------------------------------
+# 3. code -> spec: random lock-stepped runs validated by TLC
+
+def tla(v):
+    if isinstance(v, bool):
+        return "TRUE" if v else "FALSE"
+    if isinstance(v, int):
+        return str(v)
+    if isinstance(v, float) and v == int(v):
+        return str(int(v))
+    if isinstance(v, str):
+        return '"%s"' % v.replace("\\", "/").replace('"', "'")
+    if isinstance(v, (list, tuple)):
+        return "<<" + ", ".join(tla(x) for x in v) + ">>"
+    raise MachineryError("cannot render %r for TLC" % (v,))
+
+
+TRACE_CONSTS = dict(MaxKill=99, MaxAct=99, MaxPoll=99, MaxSimPoll=99, TrackRes="TRUE", ActOuts='{"ok", "exc", "fs"}',
+                    TestVals='{"True", "False", "One", "Zero", "None", "raise"}')
+
+
+def _runs_chunk(args):
+    kind, params, seeds, scratch = args
+    from .. import world_g04 as G
+    out = []
+    for sd in seeds:
+        rnd = random.Random(sd)
+        try:
+            if kind == "task":
+                tr = G.random_task_run(rnd, params[0], params[1], params[2], rnd.choice([25, 50, 90]))
+            elif kind == "per":
+                tr = G.random_per_run(rnd, params[0], params[1], rnd.choice([20, 40, 80]))
+            else:
+                tr = G.random_sim_run(rnd, scratch, rnd.choice([30, 60, 120]))
+            out.append((sd, tr, None))
+        except (G.HarnessDrift, MachineryError) as e:
+            out.append((sd, [], "harness drift (seed %d): %s" % (sd, e)))
+        except G.NotEnabled as e:
+            out.append((sd, [], "random run asked for a step that is not there (seed %d): %s" % (sd, e)))
+        except Exception:      # noqa
+            import traceback
+            out.append((sd, [], "random run crashed (seed %d): %s" % (sd, traceback.format_exc()[-1200:])))
+    return out
+
+
+def validate_traces(chk, tag, kind, consts, traces):
+    """traces: list of step lists.  -> ({index: index of the first step that was not matched}, invariant violated | None)"""
+    rejected = {}
+    d = os.path.join(GEN, "trace_%s" % tag)
+    shutil.rmtree(d, ignore_errors=True)
+    os.makedirs(d)
+    for f in (MODULE + ".tla", MODULE + "_trace.tla"):
+        shutil.copy(os.path.join(SPEC, f), os.path.join(d, f))
+    with open(os.path.join(d, "TaskTraceData.tla"), "w") as f:
+        f.write("---- MODULE TaskTraceData ----\nEXTENDS Integers, TLC\nKind == \"%s\"\nTraces == <<\n  %s\n>>\n====\n" % (
+            kind, ",\n  ".join("<<" + ",\n    ".join(tla(st) for st in tr) + ">>" for tr in traces)))
+    c = dict(BASE)
+    c.update(TRACE_CONSTS)
+    c.update(consts)
+    path = os.path.join(d, "trace.cfg")
+    with open(path, "w") as f:
+        f.write("CONSTANTS\n" + "".join("  %s = %s\n" % kv for kv in c.items()) +
+                "SPECIFICATION TraceSpec\nCONSTRAINT Furthest\nINVARIANT TInv\nPOSTCONDITION AllAccepted\nCHECK_DEADLOCK FALSE\n")
+    r = tlc.run_tlc(MODULE + "_trace", path, specdir=d, workers=1, timeout=1500, expect_violation=True)
+    chk.add_tlc(r)
+    out = r["out"]
+    inv = None
+    m = re.search(r'<<\s*"REJECTED",(.*?)>>\s*\nError', out, re.S)
+    if m:
+        pairs = re.findall(r"(\d+) :> (\d+)", m.group(1))
+        if not pairs:
+            pairs = [(str(i + 1), v) for i, v in enumerate(re.findall(r"\d+", m.group(1)))]
+        if not pairs:
+            raise MachineryError("cannot parse REJECTED report: %s" % m.group(1)[:300])
+        for t, ll in pairs:
+            rejected[int(t) - 1] = int(ll)
+    elif r["violated"] == "TInv":
+        inv = out[-3000:]
+    elif not r["ok"]:
+        raise MachineryError("trace validation failed to run:\n%s" % out[-3000:])
+    shutil.rmtree(d, ignore_errors=True)
+    return rejected, inv
+
+
+def code_to_spec(chk, tier, scratch):
+    n = 120 if tier == "quick" else 1200
+    groups = [("task", (2, "death", "task"), dict(Observers="{1, 2}", MonKind='"death"', TestKind='"task"')),
+              ("task", (1, "event", "task"), dict(Observers="{1}", MonKind='"event"', TestKind='"task"')),
+              ("task", (1, "death", "env"), dict(Observers="{1}", MonKind='"death"', TestKind='"env"')),
+              ("task", (1, "event", "env"), dict(Observers="{1}", MonKind='"event"', TestKind='"env"')),
+              ("per", (True, "number"), dict(LastAction="TRUE", IntervalKind='"number"')),
+              ("per", (True, "callable"), dict(LastAction="TRUE", IntervalKind='"callable"')),
+              ("per", (False, "callable"), dict(LastAction="FALSE", IntervalKind='"callable"')),
+              ("per", (False, "number"), dict(LastAction="FALSE", IntervalKind='"number"')),
+              ("sim", (), dict())]
+    jobs = []
+    for gi, (kind, params, consts) in enumerate(groups):
+        seeds = [chk.seed * 1000003 + gi * 100000 + i for i in range(n)]
+        for i in range(0, n, 30):
+            jobs.append((kind, params, seeds[i:i + 30], scratch))
+    res = pool_map(_runs_chunk, jobs)
+    by_group = {}
+    for (kind, params, seeds, _), part in zip(jobs, res):
+        by_group.setdefault((kind, params), []).extend(part)
+    stats = {}
+    selftest_done = False
+    for gi, (kind, params, consts) in enumerate(groups):
+        runs = []
+        for sd, tr, problem in by_group[(kind, params)]:
+            if problem:
+                if problem.startswith("harness drift") or "crashed" in problem:
+                    raise MachineryError(problem)
+                chk.violation("trace:%s:step-not-available" % kind, problem, {"kind": "trace", "group": gi, "seed": sd})
+                continue
+            if tr:
+                runs.append((sd, tr))
+        tag = "%s_%d_%s" % (kind, gi, tier)
+        rejected, inv = validate_traces(chk, tag, kind, consts, [tr for _sd, tr in runs])
+        if inv:
+            chk.violation("trace:%s:invariant" % kind, "a recorded run of the real code reaches a state that violates an invariant of the "
+                          "specification: %s" % inv[-1500:], {"kind": "trace-group", "group": gi})
+        for i, (sd, tr) in enumerate(runs):
+            chk.evaluated(("trace", kind, params, sd))
+            if i in rejected:
+                ll = rejected[i]
+                st = tr[ll] if ll < len(tr) else ["?", "?", 0, []]
+                chk.violation("trace:%s:no-action-explains:%s" % (kind, st[0]),
+                              "seed %d (%s %s): step %d (%s %s, result %s) of the recorded run of the real code is not a step of TaskLifecycle.tla; "
+                              "logged projection after it: %s; before it: %s; previous steps: %s" % (
+                                  sd, kind, params, ll + 1, st[0], st[1], json.dumps(st[2]), json.dumps(st[3]),
+                                  json.dumps(tr[ll - 1][3]) if ll else "initial state", [(x[0], x[1]) for x in tr[max(0, ll - 10):ll]]),
+                              {"kind": "trace", "group": gi, "seed": sd, "rejected_step": ll + 1})
+            else:
+                chk.trace_validated()
+        acts = {}
+        for _sd, tr in runs:
+            for st in tr:
+                acts[st[0]] = acts.get(st[0], 0) + 1
+        stats["%s%s" % (kind, list(params))] = dict(runs=len(runs), steps=sum(len(tr) for _sd, tr in runs), rejected=len(rejected), by_action=acts)
+        # self-test of the binding: one corrupted field must be rejected
+        if not selftest_done and runs and kind == "task":
+            sd, tr = max(runs, key=lambda x: len(x[1]))
+            bad = json.loads(json.dumps(tr))
+            idx = next((i for i, st in enumerate(bad) if st[0] == "W" and st[3][3] != 999), None)
+            if idx is not None:
+                bad[idx][3][3] = bad[idx][3][3] + 1          # the return code the waiter thread stored
+                rej, _ = validate_traces(chk, tag + "_selftest", kind, consts, [bad])
+                if 0 not in rej or rej[0] != idx:
+                    raise MachineryError("self-test: a trace with a corrupted returncode at step %d was not rejected there (%s)" % (idx + 1, rej))
+                selftest_done = True
+    if not selftest_done:
+        raise MachineryError("self-test of the trace binding did not run (no suitable recorded run)")
+    chk.cov["random_runs"] = stats
+    chk.cov["trace_selftest"] = "a recorded run with one corrupted field (returncode stored by the waiter thread) is rejected at that step"
+
+
 def run(tier):
     chk = Check(PID, tier)
     os.makedirs(GEN, exist_ok=True)
     try:
         t0 = time.time()
-        transition_cover(chk, "task1", "TaskSpec", {}, "task", (1, "none", "task"), 1000)
-        print("task1", time.time() - t0, chk.cov["transition_cover"])
+        code_to_spec(chk, tier, chk.scratch)
+        print(time.time() - t0, json.dumps(chk.cov["random_runs"])[:3000])
         return chk.finish()
     finally:
         shutil.rmtree(GEN, ignore_errors=True)
